@@ -3,6 +3,7 @@
   Property theorems only; helper lemmas are in Lemmas/Morx.lean, the declarative side in Spec/Aat.lean.
 -/
 import RbModel.Lemmas.Morx
+import RbModel.Lemmas.MorxPurge
 
 namespace RbModel.Morx
 open RbModel.Spec.Aat
@@ -312,5 +313,81 @@ example : ∃ b : RbModel.Buf, RbModel.Buf.Inv b ∧ 0 < RbModel.Buf.total b ∧
   ⟨{ info := [{ gid := 1 }, { gid := 2, cluster := 1 }], out := [{}, {}], idx := 1, len := 2, outLen := 1,
      haveOutput := true },
    ⟨by decide, by decide, by decide, (fun h => by simp at h), (fun _ => by decide), rfl⟩, by decide, by decide⟩
+
+/-! ## deleted glyphs are purged, whoever positions -/
+
+/-- **C17_purge.** `hb_aat_layout_remove_deleted_glyphs` (the model of `delete_glyphs_inplace(is_deleted_glyph)`) at
+    every cluster level, on every glyph string: the glyph ids that remain are exactly those of the records that are
+    not the deleted glyph 0xFFFF, in their order; no record that remains is a deleted glyph; and every cluster value
+    that comes out is a cluster value that went in (the purge only merges). -/
+theorem C17_purge (level : Nat) (l : List G) :
+    (purge level l).map (·.gid) = (l.filter (fun g => g.gid != RbModel.Gen.Morx.DELETED_GLYPH)).map (·.gid) ∧
+    (∀ g ∈ purge level l, g.gid ≠ RbModel.Gen.Morx.DELETED_GLYPH) ∧
+    (∀ g ∈ purge level l, ∃ x ∈ l, g.cl = x.cl) := by
+  refine ⟨?_, ?_, ?_⟩
+  · have h := purge_gids level l
+    have hf : notDel = (fun g => g.gid != RbModel.Gen.Morx.DELETED_GLYPH) := by
+      funext g; simp [notDel, isDeleted, bne]
+    rw [← hf]; exact h
+  · intro g hg hd
+    have := purge_notDel level l g hg
+    simp [isDeleted, hd] at this
+  · exact purge_cl (fun c => ∃ x ∈ l, c = x.cl) level l (fun g hg => ⟨g, hg, rfl⟩)
+
+/-- the purge does delete: `A_E_D, deleted, deleted` with the ligature's cluster on all three becomes the ligature alone;
+    a leading deleted glyph hands its smaller cluster forward, a trailing one backward. -/
+example : purge 0 [⟨10, 0⟩, ⟨65535, 0⟩, ⟨65535, 0⟩] = [⟨10, 0⟩] ∧
+    purge 0 [⟨65535, 0⟩, ⟨4, 1⟩, ⟨5, 1⟩, ⟨6, 2⟩] = [⟨4, 0⟩, ⟨5, 0⟩, ⟨6, 2⟩] ∧
+    purge 1 [⟨4, 3⟩, ⟨5, 3⟩, ⟨65535, 2⟩] = [⟨4, 2⟩, ⟨5, 2⟩] := by decide
+
+/-- **C17_shape_purged.** The modelled slice of `shape()` around the morx interpreter (plan → native direction →
+    substitution → purge in `substitute_pre` when GPOS positions, in `substitute_post` otherwise → final reversal),
+    for every morx table, every chain-flag map, every combination of accompanying tables (GSUB, GPOS with or
+    without `kern`, kerx, kern), every direction, level and glyph string: whenever the plan applies morx and the run
+    does not panic, the glyph ids that come out are exactly the glyph ids `hb_aat_layout_substitute` left in the
+    buffer, without the deleted glyphs, in visual order — the same whoever positions afterwards; no deleted glyph
+    is left; no cluster value is invented. -/
+theorem C17_shape_purged (chains : List Chain) (flags : List (Array Range)) (e : Env) (b : Buf)
+    (ap : Appliers) (out : List G) (h : shapeMorx chains flags e b = .ok (ap, out)) (hm : ap.morx = true) :
+    ∃ b1 b2 l, nativeDirection b = .ok b1 ∧ applyChains chains flags b1 = .ok b2 ∧ visible b2 = .ok l ∧
+      out.map (·.gid) = ((if b2.backward then l.reverse else l).filter
+          (fun g => g.gid != RbModel.Gen.Morx.DELETED_GLYPH)).map (·.gid) ∧
+      (∀ g ∈ out, g.gid ≠ RbModel.Gen.Morx.DELETED_GLYPH) ∧
+      (∀ g ∈ out, ∃ x ∈ l, g.cl = x.cl) := by
+  unfold shapeMorx at h
+  cases h1 : nativeDirection b with
+  | error p => simp [h1, bind, Except.bind] at h
+  | ok b1 =>
+    cases h2 : substitutePlan (appliers e (!b.vertical)) chains flags e b1 with
+    | error p => simp [h1, h2, bind, Except.bind] at h
+    | ok b2 =>
+      cases h3 : visible b2 with
+      | error p => simp [h1, h2, h3, bind, Except.bind] at h
+      | ok l =>
+        simp only [h1, h2, h3, bind, Except.bind, pure, Except.pure, Except.ok.injEq, Prod.mk.injEq] at h
+        obtain ⟨hap, hout⟩ := h
+        subst hap
+        have h2' : applyChains chains flags b1 = .ok b2 := by
+          unfold substitutePlan at h2; rw [if_pos hm] at h2; exact h2
+        have hf : notDel = (fun g => g.gid != RbModel.Gen.Morx.DELETED_GLYPH) := by
+          funext g; simp [notDel, isDeleted, bne]
+        refine ⟨b1, b2, l, rfl, h2', h3, ?_, ?_, ?_⟩
+        · rw [← hout, finish_gids _ _ _ _ hm, hf]
+        · intro g hg hd
+          rw [← hout] at hg
+          have := finish_notDel _ _ _ _ hm g hg
+          simp [isDeleted, hd] at this
+        · intro g hg
+          rw [← hout] at hg
+          exact finish_cl (fun c => ∃ x ∈ l, c = x.cl) _ _ _ l (fun g hg => ⟨g, hg, rfl⟩) g hg
+
+/-- non-vacuity: a font with morx + GPOS (the plan applies both), a non-contextual subtable that deletes glyph 7,
+    right-to-left text: the slice runs, applies morx, and the deleted glyph is gone. -/
+example : ∃ ap out, shapeMorx [⟨1, [], [⟨0x20, 1, .noncontextual (fun g => if g == 7 then some 65535 else none)⟩]⟩]
+      [#[⟨1, 0, 0xFFFFFFFF⟩]] { gpos := true }
+      { (default : Buf) with info := #[⟨3, 0⟩, ⟨7, 1⟩, ⟨5, 2⟩], len := 3, backward := true, successful := true,
+                             maxOps := 100, maxLen := 100 } = .ok (ap, out) ∧
+    ap.morx = true ∧ ap.gpos = true ∧ out = [⟨5, 2⟩, ⟨3, 0⟩] := by
+  exact ⟨⟨true, true, false, false⟩, [⟨5, 2⟩, ⟨3, 0⟩], by decide +kernel, rfl, rfl, rfl⟩
 
 end RbModel.Morx
